@@ -4,6 +4,7 @@ package c09
 import (
 	"context"
 	"fmt"
+	"github.com/thushan/olla/internal/adapter/proxy/olla"
 	"io"
 	"net/http"
 	"sort"
@@ -209,6 +210,12 @@ func runCase(c Case) []ev.Violation {
 			if G&(1<<i) != 0 {
 				if err := r.be[i].Up(); err != nil {
 					panic("c09: backend did not come back: " + err.Error())
+				}
+				// the refused attempts count against the endpoint in the olla engine's breaker (its names are
+				// fixed per stack): report a success through the exported API so that the outage of this
+				// case does not add up with those of later cases into an open breaker
+				if svc, ok := r.s.Proxy.(*olla.Service); ok {
+					svc.GetCircuitBreaker(fmt.Sprintf("e%d", i)).RecordSuccess()
 				}
 			}
 		}
